@@ -384,9 +384,126 @@ def rule_binary_types(chk, prog, tier):
     r.exhaustive = (tier == 'thorough')
 
 
+# ------------------------------------------------------------------ C05.d integer literal typing
+
+LIT_ROWS = {   # suffix class -> (decimal list, non-decimal list)   C11 6.4.4.1p5
+    '': (['int', 'long', 'llong'], ['int', 'uint', 'long', 'ulong', 'llong', 'ullong']),
+    'u': (['uint', 'ulong', 'ullong'], ['uint', 'ulong', 'ullong']),
+    'l': (['long', 'llong'], ['long', 'ulong', 'llong', 'ullong']),
+    'ul': (['ulong', 'ullong'], ['ulong', 'ullong']),
+    'll': (['llong'], ['llong', 'ullong']),
+    'ull': (['ullong'], ['ullong']),
+}
+SUFFIXES = {'': '', 'u': 'u', 'U': 'u', 'l': 'l', 'L': 'l', 'ul': 'ul', 'UL': 'ul', 'uL': 'ul', 'Ul': 'ul', 'lu': 'ul', 'LU': 'ul', 'lU': 'ul',
+            'Lu': 'ul', 'll': 'll', 'LL': 'll', 'ull': 'ull', 'ULL': 'ull', 'uLL': 'ull', 'Ull': 'ull', 'llu': 'ull', 'LLU': 'ull', 'llU': 'ull', 'LLu': 'ull'}
+BAD_SUFFIXES = ['uu', 'lul', 'lll', 'f', 'i', 'ulu', 'x', 'lull', 'ullu']
+MAXV = {'int': 2**31 - 1, 'uint': 2**32 - 1, 'long': 2**63 - 1, 'ulong': 2**64 - 1, 'llong': 2**63 - 1, 'ullong': 2**64 - 1}
+
+
+def rule_literals(chk, prog, tier):
+    r = chk.rule('C05.d', 'inttype(): an integer constant gets the first type of the C11 6.4.4.1p5 list for its base and suffix that can represent its value; unknown suffixes are diagnosed',
+                 floor=60, oracle='DESIGN A.4')
+    fn = prog.require_func('inttype', 'expr.c')
+    models = {'fatal': lambda it, a, e: (_ for _ in ()).throw(Terminal('fatal', a)),
+              'error': lambda it, a, e: (_ for _ in ()).throw(Terminal('error', a))}
+    where = 'expr.c:%s' % fn.get('line')
+    for suf in list(SUFFIXES) + BAD_SUFFIXES:
+        for decimal in (1, 0):
+            def runner(it, suf=suf, decimal=decimal):
+                w = World(prog, it=it, target='x86_64-sysv')
+                u = {n: w.t(n) for n in MAXV}
+                val = Sym('val'); val.lo = 0; val.hi = 2**64 - 1
+                so = it.mkstr(list(suf.encode()), 'suffix'); so.writable = True
+                t = it.call(fn, [val, decimal, Ptr(so, (0,))])
+                return name_of_type(u, t), val.lo, val.hi
+            runs = explore(prog, runner, models, max_runs=40)
+            cls = SUFFIXES.get(suf)
+            key0 = 'literal:%s,%s' % (suf or 'none', 'dec' if decimal else 'nondec')
+            if cls is None:
+                ok = all(x.outcome == 'terminal:error' for x in runs)
+                r.instance(ok, key0, where, 'invalid suffix %r must be diagnosed; got %s' % (suf, sorted({x.outcome for x in runs})))
+                continue
+            lst = LIT_ROWS[cls][0 if decimal else 1]
+            # expected partition of [0, 2^64-1]
+            want = []
+            lo = 0
+            for tname in lst:
+                hi = MAXV[tname]
+                if hi >= lo:
+                    want.append((lo, hi, tname)); lo = hi + 1
+            if lo <= 2**64 - 1:
+                want.append((lo, 2**64 - 1, 'error'))
+            got = []
+            for x in runs:
+                if x.outcome == 'return':
+                    got.append((x.value[1], x.value[2], x.value[0]))
+                elif x.outcome == 'terminal:error':
+                    vs = [s for s in [x.interp.user.get('val')] if s]
+                    got.append(None)
+                else:
+                    raise AnalysisBroken('inttype(%r): %s %s' % (suf, x.outcome, x.detail))
+            # the error path's interval: recover it as the complement of the returned intervals
+            ret = sorted(g for g in got if g)
+            covered = 0
+            comp = []
+            for (a, b, t) in ret:
+                if a > covered: comp.append((covered, a - 1, 'error'))
+                covered = b + 1
+            if covered <= 2**64 - 1 and any(g is None for g in got):
+                comp.append((covered, 2**64 - 1, 'error'))
+            full = sorted(ret + comp)
+            # merge adjacent equal types
+            merged = []
+            for a, b, t in full:
+                if merged and merged[-1][2] == t and merged[-1][1] + 1 == a:
+                    merged[-1] = (merged[-1][0], b, t)
+                else:
+                    merged.append((a, b, t))
+            wm = []
+            for a, b, t in want:
+                if wm and wm[-1][2] == t and wm[-1][1] + 1 == a: wm[-1] = (wm[-1][0], b, t)
+                else: wm.append((a, b, t))
+            r.instance(merged == wm, key0, where, 'value ranges -> type: expected %s, extracted %s' % (
+                [(hex(a), hex(b), t) for a, b, t in wm], [(hex(a), hex(b), t) for a, b, t in merged]),
+                sample='%s: %s' % (key0, [(hex(a), hex(b), t) for a, b, t in merged]))
+    r.exhaustive = True
+
+
+# ------------------------------------------------------------------ C05.g decay / member qualifiers
+
+def rule_decay(chk, prog, tier):
+    r = chk.rule('C05.g', 'array-to-pointer decay yields a pointer to the element type carrying the qualifiers of both the array type and the designating lvalue; function designators decay to pointers to the function type',
+                 floor=8, oracle='C11 6.3.2.1p3-4, 6.7.3p9')
+    fn = prog.require_func('decay', 'expr.c')
+    QC, QV = ev(prog, 'QUALCONST'), ev(prog, 'QUALVOLATILE')
+    models = {'fatal': lambda it, a, e: (_ for _ in ()).throw(Terminal('fatal', a)),
+              'error': lambda it, a, e: (_ for _ in ()).throw(Terminal('error', a))}
+    for aq in (0, QC, QV):
+        for eq in (0, QC, QC | QV):
+            def runner(it, aq=aq, eq=eq):
+                w = World(prog, it=it, target='x86_64-sysv')
+                arr = it.call('mkarraytype', [w.t('int'), aq, 4])
+                e = w.temp(arr, 'a')
+                e.obj.f[('lvalue',)] = 1
+                e.obj.f[('qual',)] = eq
+                res = it.call(fn, [e])
+                t = it.load(res.obj, ('type',))
+                return (it.load(t.obj, ('kind',)), it.load(t.obj, ('base',)) == w.t('int'), it.load(t.obj, ('qual',)), it.load(res.obj, ('decayed',)))
+            runs = explore(prog, runner, models, max_runs=4)
+            if len(runs) != 1 or runs[0].outcome != 'return':
+                raise AnalysisBroken('decay: %s' % [(x.outcome, x.detail) for x in runs])
+            kind, baseok, qual, decayed = runs[0].value
+            ok = kind == ev(prog, 'TYPEPOINTER') and baseok and qual == (aq | eq) and decayed
+            r.instance(ok, 'decay:array,typequal=%d,exprqual=%d' % (aq, eq), 'expr.c:%s' % fn.get('line'),
+                       'expected pointer to int with pointee qualifiers %#x, got kind=%s base-ok=%s qual=%#x decayed=%s' % (aq | eq, kind, baseok, qual, decayed))
+    r.exhaustive = True
+
+
 def run(chk, tier):
     prog = facts.programs()['cproc-qbe']
     chk.guard('C05.a', lambda: rule_promote(chk, prog, tier))
     chk.guard('C05.b', lambda: rule_common(chk, prog, tier))
     chk.guard('C05.c', lambda: rule_binary_types(chk, prog, tier))
+    chk.guard('C05.d', lambda: rule_literals(chk, prog, tier))
     chk.guard('C05.f', lambda: rule_descriptors(chk, prog, tier))
+    chk.guard('C05.g', lambda: rule_decay(chk, prog, tier))
